@@ -2,7 +2,7 @@
    arguments and arbitrary hints.  Whatever the rest of the network does reaches one node as such
    a sequence (DESIGN 1), so an invariant of all reachable ledgers holds on every node of every
    network under every schedule (given the atomicity of the locked regions). *)
-From Verif Require Import U64 Spice RepoConstants Ledger ListFacts LedgerInv LedgerGraph.
+From Verif Require Import U64 Spice SpiceP RepoConstants Ledger ListFacts LedgerInv LedgerGraph LedgerFunds.
 From Coq Require Import NArith Permutation.
 
 Inductive lop :=
@@ -316,3 +316,178 @@ Lemma unverified_never_admitted L v b : v_ok v = false ->
   (exists r, add_leaf L v b = (L, r) /\ r <> ROk /\ r <> RParentMissing) /\
   (forall rep, exists r, add_leaf_mem L v rep b = (L, r) /\ r <> ROk /\ r <> RParentMissing).
 Proof. intros H. split; [apply unverified_rejected|intros rep; apply retry_unverified_rejected]; exact H. Qed.
+
+(* ---------------------------------------------------------------- amounts held by reachable ledgers are canonical *)
+Lemma lstep_funds_canon L o : Inv L -> funds_canon (st_funds L) -> funds_canon (st_funds (lstep L o)).
+Proof.
+  intros I Hf. destruct o; cbn [lstep].
+  - unfold create_genesis. destruct (N.eqb _ _); [exact Hf|]. destruct (canonb _); cbn [negb]; [|exact Hf].
+    destruct (has_trx _ _); [exact Hf|]. destruct (live _ _); exact Hf.
+  - destruct (create_leaf L t o1 o2 newh vok b) as [[L' r] ov] eqn:E. cbn.
+    unfold create_leaf in E.
+    destruct (loaded L); cbn [negb] in E; [|inversion E; subst; exact Hf].
+    destruct (is_empty_trx t); [inversion E; subst; exact Hf|].
+    destruct (canonb _); cbn [negb] in E; [|inversion E; subst; exact Hf].
+    destruct (N.eqb _ (self L)); [inversion E; subst; exact Hf|].
+    destruct (N.eqb _ (genesis L)); [inversion E; subst; exact Hf|].
+    destruct (_ && _); [inversion E; subst; exact Hf|].
+    destruct (has_trx L _); [inversion E; subst; exact Hf|].
+    destruct (valid_leaves L o1 [] false b) as [[[L1 acc] e1] b1] eqn:Ev1.
+    destruct (valid_leaves_store _ _ _ _ _ _ _ _ _ Ev1) as [_ [S1 _]].
+    assert (Fin : forall L2 l r0, st_funds L2 = st_funds L ->
+      (let v := Vtx newh (nhash l) (nhash r0) (wrap (Z.max (v_weight (nv l)) (v_weight (nv r0)) + 1)) (self L) vok t in
+        if has_trx L2 (t_hash t) then (L2, RRejected, None) else
+        if live L2 newh then (L2, RRejected, None) else
+        (insert L2 v (dedup2 (nhash l) (nhash r0)), ROk, Some v)) = (L', r, ov) -> funds_canon (st_funds L')).
+    { intros L2 l r0 S2. cbn zeta. destruct (has_trx L2 _); [intros X; inversion X; subst; rewrite S2; exact Hf|].
+      destruct (live L2 newh); intros X; inversion X; subst; cbn; rewrite S2; exact Hf. }
+    destruct e1; [inversion E; subst; rewrite S1; exact Hf|].
+    destruct acc as [|l [|r0 rest]]; [|eapply Fin; eauto|eapply Fin; eauto].
+    destruct (valid_leaves L1 o2 [] false b1) as [[[L2 acc2] e2] b2] eqn:Ev2.
+    destruct (valid_leaves_store _ _ _ _ _ _ _ _ _ Ev2) as [_ [S2 _]].
+    destruct e2, acc2 as [|l [|r0 rest]]; try (inversion E; subst; rewrite S2, S1; exact Hf); eapply Fin; try exact E; congruence.
+  - destruct (add_leaf L v b) as [L' r] eqn:E. cbn. unfold add_leaf in E.
+    destruct (loaded L) eqn:Hl; cbn [negb] in E; [|inversion E; subst; exact Hf].
+    destruct (N.eqb_spec (t_issuer (v_trx v)) (v_signer v)); [inversion E; subst; exact Hf|].
+    destruct (is_empty_trx _) eqn:Ee; [inversion E; subst; exact Hf|].
+    destruct (canonb _) eqn:Ec; cbn [negb] in E; [|inversion E; subst; exact Hf].
+    destruct (add_leaf_mem_inv _ _ _ _ _ _ I Hl (conj n (conj Ee Ec)) E) as [_ [_ [_ [_ [_ [S _]]]]]]. rewrite S. exact Hf.
+  - destruct (retry_one L b) as [L' r] eqn:E. cbn. unfold retry_one in E.
+    destruct (parked L) as [|[v rep] rest] eqn:Ep; [inversion E; subst; exact Hf|].
+    destruct (add_leaf_mem (set_parked L rest) v rep b) as [L1 r1] eqn:Ea. inversion E; subst.
+    assert (Hl : loaded L = true).
+    { destruct (loaded L) eqn:Hl; [reflexivity|]. destruct (inv_unl _ I Hl) as [_ [_ [Hp _]]]. congruence. }
+    assert (Hv : adm_ok v) by (eapply inv_park; [exact I|rewrite Ep; left; reflexivity]).
+    assert (I' : Inv (set_parked L rest)).
+    { apply Inv_set_parked; auto. intros u r Hin. eapply inv_park; [exact I|rewrite Ep; right; exact Hin]. }
+    destruct (add_leaf_mem_inv _ _ _ _ _ _ I' Hl Hv Ea) as [_ [_ [_ [_ [_ [S _]]]]]]. rewrite S. exact Hf.
+  - destruct (truncate L tip cut a32) as [L' r] eqn:E. cbn. eapply truncate_funds_canon; [exact Hf| |exact E].
+    intros m Hm. assert (Hv : In (nv m) (vertices L)) by (unfold vertices; apply in_or_app; left; apply in_map; exact Hm).
+    destruct (inv_seal _ I _ Hv) as [Hc _]. unfold canonb in Hc. unfold canon.
+    repeat (apply andb_true_iff in Hc; destruct Hc as [Hc ?]).
+    repeat match goal with H : (_ <=? _) = true |- _ => apply Z.leb_le in H | H : (_ <? _) = true |- _ => apply Z.ltb_lt in H end. lia.
+  - exact Hf.
+  - exact Hf.
+Qed.
+
+Lemma reach_amounts_canon me L : reach me L -> amounts_canon L.
+Proof.
+  intros R. split.
+  - intros m Hm. apply (reach_canonical _ _ R). unfold vertices. apply in_or_app. left. apply in_map. exact Hm.
+  - apply funds_of_canon. induction R as [|L o R IH Hok]; [intros a m []|].
+    apply lstep_funds_canon; [eapply reach_Inv; eauto|exact IH].
+Qed.
+
+(* ---------------------------------------------------------------- C01: a tip gets a child only if it is covered in its own history *)
+Lemma gossip_confirms_only_covered me L v b L' : reach me L -> add_leaf L v b = (L', ROk) ->
+  forall h p, In h (decl v) -> find_node h (dag L) = Some p -> has_child L h = false -> covered L p.
+Proof.
+  intros R H h p Hin Hf Hc. unfold add_leaf in H.
+  destruct (loaded L); cbn [negb] in H; [|inversion H].
+  destruct (N.eqb _ (v_signer v)); [inversion H|]. destruct (is_empty_trx _); [inversion H|].
+  destruct (canonb _); cbn [negb] in H; [|inversion H]. unfold add_leaf_mem in H.
+  destruct (N.eqb _ (genesis L)); [inversion H|]. destruct (_ && _); [inversion H|].
+  destruct (_ || _); [inversion H|]. destruct (has_trx L _); [inversion H|].
+  destruct (v_ok v); cbn [negb] in H; [|inversion H].
+  destruct (link_parents L v 0 [v_left v; v_right v] [] b) as [[[L1 r1] ps] b1] eqn:El.
+  destruct r1; try (inversion H; fail).
+  eapply link_parents_covered; [apply (reach_amounts_canon _ _ R)|exact El|exact Hin|exact Hf|exact Hc].
+Qed.
+
+Lemma retry_confirms_only_covered me L v rep b L' : reach me L -> add_leaf_mem L v rep b = (L', ROk) ->
+  forall h p, In h (decl v) -> find_node h (dag L) = Some p -> has_child L h = false -> covered L p.
+Proof.
+  intros R H h p Hin Hf Hc. unfold add_leaf_mem in H.
+  destruct (N.eqb _ (genesis L)); [inversion H|]. destruct (_ && _); [inversion H|].
+  destruct (_ || _); [inversion H|]. destruct (has_trx L _); [inversion H|].
+  destruct (v_ok v); cbn [negb] in H; [|inversion H].
+  destruct (link_parents L v rep [v_left v; v_right v] [] b) as [[[L1 r1] ps] b1] eqn:El.
+  destruct r1; try (inversion H; fail).
+  eapply link_parents_covered; [apply (reach_amounts_canon _ _ R)|exact El|exact Hin|exact Hf|exact Hc].
+Qed.
+
+Lemma proposal_confirms_only_covered me L t o1 o2 newh vok b L' v : reach me L ->
+  create_leaf L t o1 o2 newh vok b = (L', ROk, Some v) ->
+  exists l r L2, L' = insert L2 v (dedup2 (nhash l) (nhash r)) /\ v_left v = nhash l /\ v_right v = nhash r /\
+    In l (dag L2) /\ In r (dag L2) /\ has_child L2 (nhash l) = false /\ has_child L2 (nhash r) = false /\
+    covered L2 l /\ covered L2 r.
+Proof.
+  intros R. pose proof (reach_amounts_canon _ _ R) as Hc. unfold create_leaf.
+  destruct (loaded L); cbn [negb]; [|discriminate].
+  destruct (is_empty_trx t); [discriminate|].
+  destruct (canonb _); cbn [negb]; [|discriminate].
+  destruct (N.eqb _ (self L)); [discriminate|].
+  destruct (N.eqb _ (genesis L)); [discriminate|].
+  destruct (_ && _); [discriminate|].
+  destruct (has_trx L _); [discriminate|].
+  assert (Fin : forall L2 l r0,
+    (In l (dag L2) /\ has_child L2 (nhash l) = false /\ covered L2 l) ->
+    (In r0 (dag L2) /\ has_child L2 (nhash r0) = false /\ covered L2 r0) ->
+    (let v0 := Vtx newh (nhash l) (nhash r0) (wrap (Z.max (v_weight (nv l)) (v_weight (nv r0)) + 1)) (self L) vok t in
+      if has_trx L2 (t_hash t) then (L2, RRejected, None) else
+      if live L2 newh then (L2, RRejected, None) else
+      (insert L2 v0 (dedup2 (nhash l) (nhash r0)), ROk, Some v0)) = (L', ROk, Some v) ->
+    exists l r L2, L' = insert L2 v (dedup2 (nhash l) (nhash r)) /\ v_left v = nhash l /\ v_right v = nhash r /\
+      In l (dag L2) /\ In r (dag L2) /\ has_child L2 (nhash l) = false /\ has_child L2 (nhash r) = false /\
+      covered L2 l /\ covered L2 r).
+  { intros L2 l r0 [A1 [A2 A3]] [B1 [B2 B3]]. cbn zeta.
+    destruct (has_trx L2 _); [discriminate|]. destruct (live L2 newh); [discriminate|].
+    intros H; inversion H; subst. exists l, r0, L2. repeat split; auto. }
+  destruct (valid_leaves L o1 [] false b) as [[[L1 acc] e1] b1] eqn:Ev1.
+  destruct (valid_leaves_covered _ _ _ _ _ _ _ _ _ Hc (fun m (F : In m []) => match F with end) Ev1) as [Hc1 Hacc1].
+  destruct e1; [discriminate|].
+  destruct acc as [|l [|r0 rest]].
+  - destruct (valid_leaves L1 o2 [] false b1) as [[[L2 acc2] e2] b2] eqn:Ev2.
+    destruct (valid_leaves_covered _ _ _ _ _ _ _ _ _ Hc1 (fun m (F : In m []) => match F with end) Ev2) as [Hc2 Hacc2].
+    destruct e2, acc2 as [|l [|r0 rest]]; try discriminate; intros H; eapply Fin; try exact H; apply Hacc2; cbn; auto.
+  - intros H; eapply Fin; try exact H; apply Hacc1; cbn; auto.
+  - intros H; eapply Fin; try exact H; apply Hacc1; cbn; auto.
+Qed.
+
+(* a tip that fails the test is dropped (vertex, edges, index entry) instead of being built upon *)
+Lemma failing_tip_dropped L n b r b' e :
+  find_node (nhash n) (dag L) = Some n -> has_child L (nhash n) = false -> validate L n b = (r, b') -> r <> VOk ->
+  valid_leaves L [nhash n] [] e b = (((drop_tip L n, []), true), b').
+Proof.
+  intros Hf Hc Hv Hr. cbn [valid_leaves length Nat.leb]. rewrite Hf, Hc. cbn [orb nmem map existsb]. rewrite Hv.
+  destruct r; try reflexivity. contradiction.
+Qed.
+
+(* truncation checkpoints only vertices that already had a child *)
+Lemma anc_pass_wanted l : forall w m, In m (anc_pass w l) -> In (nhash m) w \/ exists x, In x l /\ In (nhash m) (lp x).
+Proof.
+  induction l as [|x r IH]; intros w m Hm; cbn [anc_pass] in Hm; [destruct Hm|].
+  destruct (nmem (nhash x) w) eqn:Ew.
+  - destruct Hm as [E|Hm]; [subst m; left; apply nmem_In; exact Ew|].
+    destruct (IH _ _ Hm) as [Hin|[y [Hy Hp]]].
+    + apply in_app_or in Hin. destruct Hin as [Hin|Hin]; [right; exists x; split; [left; reflexivity|exact Hin]|left; exact Hin].
+    + right. exists y. split; [right; exact Hy|exact Hp].
+  - destruct (IH _ _ Hm) as [Hin|[y [Hy Hp]]]; [left; exact Hin|right; exists y; split; [right; exact Hy|exact Hp]].
+Qed.
+Lemma anc_from_has_child h l m : In m (anc_from h l) -> exists x, In x l /\ In (nhash m) (lp x).
+Proof.
+  induction l as [|x r IH]; cbn [anc_from]; [intros []|]. destruct (N.eqb (nhash x) h).
+  - intros Hm. destruct (anc_pass_wanted _ _ _ Hm) as [Hin|[y [Hy Hp]]].
+    + exists x. split; [left; reflexivity|exact Hin].
+    + exists y. split; [right; exact Hy|exact Hp].
+  - intros Hm. destruct (IH Hm) as [y [Hy Hp]]. exists y. split; [right; exact Hy|exact Hp].
+Qed.
+Lemma truncate_checkpoints_confirmed L tip cut a32 L' r : truncate L tip cut a32 = (L', r) ->
+  forall v, In v (st_vtx L') -> In v (st_vtx L) \/ exists n, In n (dag L) /\ nv n = v /\ has_child L (nhash n) = true.
+Proof.
+  intros H v Hv. unfold truncate in H. destruct (leaves L) as [|lf0 lfs0]; [inversion H; subst; left; exact Hv|].
+  destruct (_ || _); [inversion H; subst; left; exact Hv|]. destruct (existsb _ _); inversion H; subst; [left; exact Hv|].
+  cbn [st_vtx set_dag set_store] in Hv. apply in_app_or in Hv. destruct Hv as [Hv|Hv]; [left; exact Hv|right].
+  apply in_map_iff in Hv. destruct Hv as [n [E Hn]]. exists n. split; [eapply ancestors_sub; eauto|]. split; [exact E|].
+  destruct (anc_from_has_child _ _ _ Hn) as [x [Hx Hp]]. unfold has_child. apply existsb_exists. exists x.
+  split; [exact Hx|apply nmem_In; exact Hp].
+Qed.
+
+From Coq Require Import Permutation.
+Lemma sumZ_perm f a b : Permutation a b -> sumZ f a = sumZ f b.
+Proof. unfold sumZ. induction 1; cbn; lia. Qed.
+(* on a chain (the tip's history is the whole live graph) coverage is the wallet's solvency over everything *)
+Lemma covers_on_chain L n : Permutation (history L n) (map nv (dag L)) -> coversZ L n ->
+  let a := t_issuer (v_trx (nv n)) in
+  valZ (funds_of L a) + sumZ (inZ a) (map nv (dag L)) >= sumZ (outZ a) (map nv (dag L)).
+Proof. intros P H. unfold coversZ in H. cbn zeta in *. rewrite <- !(sumZ_perm _ _ _ P). exact H. Qed.
